@@ -88,6 +88,10 @@ pub struct FCase {
     pub controller: Vec<FOp>,
     pub ending: Ending,
     pub schedule: Vec<u8>,
+    /// dynamic discard settings: (initial limit, newest?, the limits the controller answers at its successive calls;
+    /// the last one is repeated)
+    #[serde(default)]
+    pub dynamic: Option<(u8, bool, Vec<u8>)>,
 }
 
 fn yes() -> bool {
@@ -115,6 +119,8 @@ pub enum FEv {
     Resize { to: usize },
     SetDiscard { limit: usize, newest: bool },
     DrainRequested,
+    /// the dynamic discard controller was asked (at a factory ping round) and answered `limit`
+    DynLimit { limit: usize },
     StopIssued,
     /// queue depth as answered by the GetQueueDepth RPC sent right after dispatch `after`
     Depth { after: u32, depth: usize },
@@ -291,6 +297,34 @@ pub struct Run {
     pub live_worker_children: usize,
 }
 
+struct DynCtl {
+    sh: Arc<Shared>,
+    answers: Vec<u8>,
+    k: usize,
+}
+impl DynCtl {
+    fn next(&mut self) -> usize {
+        let l = self.answers.get(self.k).or(self.answers.last()).copied().unwrap_or(0) as usize;
+        self.k += 1;
+        self.sh.ev(FEv::DynLimit { limit: l });
+        l
+    }
+}
+#[cfg(feature = "async-trait")]
+#[ractor::async_trait]
+impl ractor::factory::DynamicDiscardController for DynCtl {
+    async fn compute(&mut self, _current: usize) -> usize {
+        self.next()
+    }
+}
+#[cfg(not(feature = "async-trait"))]
+impl ractor::factory::DynamicDiscardController for DynCtl {
+    fn compute(&mut self, _current: usize) -> futures::future::BoxFuture<'_, usize> {
+        let l = self.next();
+        Box::pin(async move { l })
+    }
+}
+
 async fn run_factory<R, Q>(case: FCase, mut env: Env, router: R, queue: Q) -> Run
 where
     R: Router<Key, JobMsg>,
@@ -298,6 +332,10 @@ where
 {
     let sh = Arc::new(Shared { log: Mutex::new(vec![]), current: Mutex::new(HashMap::new()), incs: Mutex::new(HashMap::new()), builds: AtomicU32::new(0) });
     let discard_settings = match case.discard {
+        None if case.dynamic.is_some() => {
+            let (limit, newest, answers) = case.dynamic.clone().unwrap();
+            DiscardSettings::Dynamic { limit: limit as usize, mode: if newest { DiscardMode::Newest } else { DiscardMode::Oldest }, updater: Box::new(DynCtl { sh: sh.clone(), answers, k: 0 }) }
+        }
         None => DiscardSettings::None,
         Some((limit, newest)) => DiscardSettings::Static { limit: limit as usize, mode: if newest { DiscardMode::Newest } else { DiscardMode::Oldest } },
     };
@@ -648,7 +686,36 @@ pub fn strategy(tier: Tier, flavor: Flavor) -> BoxedStrategy<FCase> {
                 controller,
                 ending,
                 schedule,
+                dynamic: None,
             }
+        })
+        .boxed()
+}
+
+/// Capacity family with `DiscardSettings::Dynamic`: 2-3 phases of dispatches to busy workers, separated by
+/// pauses longer than the factory's ping period (10 s of virtual time), at which the controller answers the
+/// next generated limit
+pub fn dynamic_strategy(_tier: Tier) -> BoxedStrategy<FCase> {
+    let routing = prop_oneof![Just(Routing::KeyPersistent), Just(Routing::Queuer), Just(Routing::Sticky), Just(Routing::RoundRobin), Just(Routing::Custom)];
+    let dispatch = (gen::idx(2), (4u16..15).prop_map(Work::Ms)).prop_map(|(key, work)| FOp::Dispatch { key, ttl_ms: None, port: false, work });
+    let phase = proptest::collection::vec(dispatch, 3..=8);
+    (
+        routing,
+        1u8..=2,
+        (0u8..6, any::<bool>(), proptest::collection::vec(prop_oneof![3 => Just(0u8), 2 => 1u8..3, 1 => 3u8..6], 1..=2)),
+        proptest::collection::vec(phase, 2..=3),
+        proptest::collection::vec(prop_oneof![Just(0u64), Just(1), Just(2), Just(3)], 1..=3),
+        gen::schedule(120),
+    )
+        .prop_map(|(routing, workers, (initial, newest, answers), phases, hash_table, schedule)| {
+            let mut dispatcher = vec![];
+            for (k, ph) in phases.into_iter().enumerate() {
+                if k > 0 {
+                    dispatcher.push(FOp::Sleep(10_100));
+                }
+                dispatcher.extend(ph);
+            }
+            FCase { routing, priority_queue: false, workers, discard: None, ratelimit: None, dead_mans_ms: None, hash_table, initial_handler: true, dispatcher, controller: vec![], ending: Ending::Drain, schedule, dynamic: Some((initial, newest, answers)) }
         })
         .boxed()
 }
@@ -756,7 +823,7 @@ pub fn check_c13(case: &FCase, run: &Run) -> Result<(bool, Vec<String>), Violati
     let ev = &run.events;
     // job id k is the k-th dispatch of the dispatcher script
     let ttl_of: Vec<Option<u16>> = case.dispatcher.iter().filter_map(|o| if let FOp::Dispatch { ttl_ms, .. } = o { Some(*ttl_ms) } else { None }).collect();
-    let limit_ever = case.discard.is_some() || case.controller.iter().any(|o| matches!(o, FOp::SetDiscard { .. }));
+    let limit_ever = case.discard.is_some() || case.dynamic.is_some() || case.controller.iter().any(|o| matches!(o, FOp::SetDiscard { .. }));
     for (id, f) in &facts {
         // the reason given to the discard handler must be one that applies to this job
         if let Some((at, reason)) = f.discards.first() {
@@ -1131,7 +1198,7 @@ pub fn check_c15(case: &FCase, run: &Run) -> Result<(bool, Vec<String>), Violati
         }
     }
     // shed jobs carry the right reason, and only when a limit exists
-    let any_limit = case.discard.is_some() || ev.iter().any(|(_, e)| matches!(e, FEv::SetDiscard { .. }));
+    let any_limit = case.discard.is_some() || case.dynamic.is_some() || ev.iter().any(|(_, e)| matches!(e, FEv::SetDiscard { .. }));
     for (id, f) in &facts {
         for (_, r) in &f.discards {
             if r == "Loadshed" && !any_limit {
@@ -1166,6 +1233,50 @@ pub fn check_c15(case: &FCase, run: &Run) -> Result<(bool, Vec<String>), Violati
                         }
                     }
                 }
+            }
+        }
+    }
+    // dynamic discard limit: the limit answered by the controller at a ping round is in force, in the factory and in
+    // every worker, once the workers have answered that ping (<= one job, 15 ms; 100 ms allowed). Judged per phase:
+    // only jobs dispatched after that moment and before the next answer are counted (older ones have long finished).
+    if let Some((initial, _, _)) = &case.dynamic {
+        let mut changes: Vec<(u64, usize)> = vec![(0, *initial as usize)];
+        changes.extend(ev.iter().filter_map(|(t, e)| if let FEv::DynLimit { limit } = e { Some((*t + 100_000_000, *limit)) } else { None }));
+        let raw_changes: Vec<u64> = ev.iter().filter_map(|(t, e)| if matches!(e, FEv::DynLimit { .. }) { Some(*t) } else { None }).collect();
+        for (i, (t, e)) in ev.iter().enumerate() {
+            let FEv::Depth { after, depth } = e else { continue };
+            let Some(sp) = sent_pos.get(after) else { continue };
+            let sent_t = ev[*sp].0;
+            // the limit in force when the dispatch was sent, unless a controller answer is less than 100 ms old then or arrives before the probe is answered
+            let Some(&(since, l)) = changes.iter().rev().find(|(from, _)| *from <= sent_t) else { continue };
+            if raw_changes.iter().any(|c| *c + 100_000_000 > sent_t && *c <= *t) {
+                continue;
+            }
+            if factory_queueing {
+                if *depth > l {
+                    return Err(viol("C15/queue-over-limit", format!("dynamic discard limit: after job {after} was processed the factory queue holds {depth} jobs, the limit answered by the controller and in force was {l}")));
+                }
+            } else {
+                let mut waiting: HashMap<usize, usize> = HashMap::new();
+                for (id, f) in &facts {
+                    if *id >= 9000 || !f.sent || f.dispatched_at > i || ev[f.dispatched_at].0 < since {
+                        continue;
+                    }
+                    if let Some((spos, wid, _)) = f.starts.first() {
+                        if *spos > i && f.discards.is_empty() {
+                            *waiting.entry(*wid).or_default() += 1;
+                        }
+                    }
+                }
+                for (w, n) in waiting {
+                    if n > l + 1 {
+                        return Err(viol("C15/worker-queue-over-limit", format!("dynamic discard limit: {n} jobs accepted since the limit {l} came into force were waiting for worker {w} (limit {l} + the one in the worker's mailbox) when job {after} had been processed")));
+                    }
+                }
+            }
+            if l == 0 || *depth == l {
+                nontrivial = true;
+                labels.push("dynamic-limit-in-force".to_string());
             }
         }
     }
@@ -1290,7 +1401,7 @@ impl Part for C15 {
         }
     }
     fn strategy(tier: Tier) -> BoxedStrategy<FCase> {
-        strategy(tier, Flavor::Capacity)
+        prop_oneof![9 => strategy(tier, Flavor::Capacity), 1 => dynamic_strategy(tier)].boxed()
     }
     fn run(case: &FCase, want_trace: bool) -> Outcome {
         let run = execute(case);
